@@ -31,7 +31,7 @@ Call == \/ Is("begin") /\ Begin /\ E.failures = out'.failures
         \/ Is("expect") /\ ExpectOp(E.ph, E.arg) /\ OpObs(out', cur # 0)
         \/ Is("ignore") /\ IgnoreOp(E.ph) /\ OpObs(out', cur # 0)
         \/ Is("fail") /\ FailOp(E.ph) /\ OpObs(out', cur # 0)
-        \/ Is("end") /\ (E.arg # 0 => E.arg = nextId) /\ End(E.arg # 0) /\ E.kept = out'.kept /\ E.leakfail = (IF out'.leakfail THEN 1 ELSE 0) /\ E.own = out'.own /\ E.failures = out'.failures
+        \/ Is("end") /\ (E.arg # 0 => E.arg = nextId) /\ End(E.arg # 0, E.arg2 = 1) /\ E.kept = out'.kept /\ E.leakfail = (IF out'.leakfail THEN 1 ELSE 0) /\ E.own = out'.own /\ E.failures = out'.failures
                      /\ (out'.leakfail => ListedOK(out'.listed))
         \/ Is("final") /\ Final /\ ListedOK(out'.listed)
 TInit == Init /\ l = 1
@@ -58,7 +58,7 @@ PCall == \/ Is("begin") /\ Begin
          \/ Is("expect") /\ ExpectOp(E.ph, E.arg)
          \/ Is("ignore") /\ IgnoreOp(E.ph)
          \/ Is("fail") /\ FailOp(E.ph)
-         \/ Is("end") /\ End(E.arg # 0)
+         \/ Is("end") /\ End(E.arg # 0, E.arg2 = 1)
          \/ Is("final") /\ Final
 PSpec == TInit /\ [][PCall \/ TReset]_tvars
 Predict == (l > 1 /\ l - 1 >= atoi(IOEnv.FROM_LINE_N)) =>
